@@ -159,7 +159,7 @@ impl Prop for C16 {
         "generated: 3-40 candidate vertices (lattice-snapped coordinates so exact ties occur) or 2-14 edge geometries with 2-5 points on a 0.5 degree window; origin and optional destination coordinates at a candidate, near one, between two, anywhere in/around the window, 1-60 degrees away and out of range; tolerance none or 1 m - 500 km in any distance unit; for edges a road-class table with per-query allowed classes and a vehicle-restriction file with per-query vehicle parameters; extra query fields of all JSON types. The plugins are built from files. Oracle: exhaustive scan with the plugin's own measure in f32 (squared coordinate distance to the vertex / to the geometry's centroid) over admissible candidates, tolerance judged in great-circle metres (f64) with a +-1 % +- 5 m band, all non-id query fields unchanged. non-trivial = at least 3 candidates and the nearest one is inadmissible or beyond the tolerance".to_string()
     }
     fn cases(&self, tier: Tier) -> u32 {
-        tier.pick(2_500, 100_000)
+        tier.pick(20_000, 300_000)
     }
     fn assumptions(&self) -> Vec<String> {
         vec![
